@@ -890,6 +890,172 @@ def check_filter(spec: dict) -> dict:
     return info
 
 
+# =========================================================================== find_hmmer_hits (composition)
+
+def _run_find_hmmer_hits(raw_hits: list, groups: list, cutoffs: dict, order: list, addresses: list) -> dict:
+    """ the real find_hmmer_hits; only the external hmmsearch runner is replaced and delivers the generated
+        hits as hmmsearch does: one result per profile, the proteins as hits.  query_start carries the index of
+        the hit in the spec, so that returned hits are identified exactly """
+    import types
+    from antismash.common.hmm_rule_parser import cluster_prediction
+    from antismash.common.signature import HmmSignature
+    from vlib.build import make_cds, make_record
+    genes = sorted({raw[0] for raw in raw_hits})
+    record = make_record(60 + 70 * len(genes), False)
+    for number, gene in enumerate(genes):
+        record.add_cds_feature(make_cds({"parts": [[9 + 70 * number, 69 + 70 * number]], "strand": 1}, f"cds{gene}"))
+    by_profile: dict = {}
+    for index in order:
+        raw = raw_hits[index]
+        hsp = _FakeHSP(raw[1], f"cds{raw[0]}", int(raw[2]), int(raw[3]), float(raw[4]), addresses[index])
+        hsp.query_start = index
+        hsp.query_end = index + 1
+        by_profile.setdefault(raw[1], []).append(hsp)
+    run_results = [types.SimpleNamespace(id=profile, accession=f"{profile}.1", hsps=hsps)
+                   for profile, hsps in by_profile.items()]
+    signatures = {profile: HmmSignature(profile, "generated", int(cutoff), "generated.hmm", seed_count=3)
+                  for profile, cutoff in cutoffs.items()}
+    original = cluster_prediction.run_hmmsearch
+    cluster_prediction.run_hmmsearch = lambda *args, **kwargs: run_results
+    try:
+        found = cluster_prediction.find_hmmer_hits(record, signatures, "generated.hmm",
+                                                   [frozenset(group) for group in groups])
+    finally:
+        cluster_prediction.run_hmmsearch = original
+    return {gene: [(hit.query_id, hit.query_start, hit.bitscore) for hit in hits] for gene, hits in found.items()}
+
+
+def _compose_failures(spec: dict) -> tuple:
+    groups = [list(group) for group in spec["groups"]]
+    cutoffs = {key: int(val) for key, val in spec["cutoffs"].items()}
+    raw_hits = [list(raw) for raw in spec["hits"]]
+    count = len(raw_hits)
+    addresses = list(spec.get("addresses") or range(count))
+    failures: list = []
+    # (gene, profile, start, end, score, index) of the hits above their profile's cutoff
+    inputs = [(f"cds{raw[0]}", raw[1], int(raw[2]), int(raw[3]), float(raw[4]), index)
+              for index, raw in enumerate(raw_hits) if float(raw[4]) > cutoffs[raw[1]]]
+    by_gene: dict = {}
+    for hit in inputs:
+        by_gene.setdefault(hit[0], []).append(hit)
+    info = {"classes": [f"n_{min(count, 8)}", f"genes_{len(by_gene)}"]}
+
+    ok, base = _guard("compose_total", failures, _run_find_hmmer_hits, raw_hits, groups, cutoffs,
+                      list(range(count)), addresses)
+    if not ok:
+        return failures, info
+    by_index = {hit[5]: hit for hit in inputs}
+    kept_by_gene: dict = {}
+    for gene, hits in base.items():
+        if not hits:
+            failures.append(("compose_total", {"problem": "empty list kept", "gene": gene}))
+        kept = []
+        for profile, index, score in hits:
+            hit = by_index.get(index)
+            if hit is None or hit[0] != gene or hit[1] != profile or hit[4] != score or hit in kept:
+                failures.append(("compose_invented_hit", {"gene": gene, "returned": [profile, index, score],
+                                                          "problem": "not a hit above the cutoff on this gene, "
+                                                                     "or returned twice"}))
+            else:
+                kept.append(hit)
+        kept_by_gene[gene] = kept
+        starts = [hit[2] for hit in kept]
+        if starts != sorted(starts):
+            failures.append(("compose_sorted", {"gene": gene, "kept": kept}))
+
+    lost_a_profile = False
+    competing_somewhere = False
+    for gene, hits in by_gene.items():
+        kept = kept_by_gene.get(gene, [])
+        profiles = {hit[1] for hit in hits}
+        competing = any(len(profiles & set(group)) >= 2 for group in groups)
+        competing_somewhere = competing_somewhere or competing
+        comps = _filter_components([(h[0], h[1], h[2], h[3], h[4]) for h in hits])
+        comp_of = {}
+        for comp in comps:
+            for i in comp:
+                comp_of[hits[i]] = [hits[j] for j in comp]
+        for profile in sorted(profiles):
+            survivors = [hit for hit in kept if hit[1] == profile]
+            if len(survivors) > 1:
+                failures.append(("compose_one_per_profile", {"gene": gene, "profile": profile, "kept": survivors}))
+            # hits of the profile that nothing can take out of the competition between equivalent profiles:
+            # the gene has no competition, or every other hit of their overlapping group scores strictly lower
+            winners = [hit for hit in hits if hit[1] == profile and (
+                not competing or all(other[4] < hit[4] for other in comp_of[hit] if other != hit))]
+            if winners:
+                need = max(hit[4] for hit in winners)
+                if not any(hit[4] >= need for hit in survivors):
+                    lost_a_profile = True
+                    failures.append(("compose_best_of_profile_lost", {
+                        "gene": gene, "profile": profile, "competing_profiles_present": competing,
+                        "unbeaten_hits_of_profile": winners, "kept_of_profile": survivors, "kept": kept,
+                        "hits": hits}))
+        if competing:
+            for one, two in itertools.combinations(kept, 2):
+                if min(one[3], two[3]) - max(one[2], two[2]) > 20:
+                    failures.append(("compose_survivors_overlap", {"gene": gene, "pair": [one, two]}))
+        for hit in hits:
+            if hit in kept:
+                continue
+            own = any(k[1] == hit[1] and k[4] >= hit[4] for k in kept)
+            rival = competing and any(other != hit and other[4] >= hit[4] for other in comp_of[hit])
+            if not own and not rival:
+                failures.append(("compose_unexplained_drop", {"gene": gene, "hit": hit, "kept": kept,
+                                                              "competing_profiles_present": competing}))
+    for gene in base:
+        if gene not in by_gene:
+            failures.append(("compose_invented_hit", {"gene": gene, "problem": "gene without hits above cutoff"}))
+
+    def outcome(result):
+        # by content: two generated hits with the same gene, profile, position and score are the same hit
+        return {gene: sorted((profile, raw_hits[index][2], raw_hits[index][3], score)
+                             for profile, index, score in hits if 0 <= index < count)
+                for gene, hits in result.items()}
+
+    for order in _orders(count, [list(range(count))], full_upto=4):
+        ok, other = _guard("compose_total", failures, _run_find_hmmer_hits, raw_hits, groups, cutoffs, order,
+                           addresses)
+        if ok and outcome(other) != outcome(base):
+            failures.append(("compose_order", {"order": order, "first": outcome(base), "permuted": outcome(other)}))
+            break
+    for shuffled in spec.get("other_addresses") or []:
+        ok, other = _guard("compose_total", failures, _run_find_hmmer_hits, raw_hits, groups, cutoffs,
+                           list(range(count)), list(shuffled))
+        if ok and outcome(other) != outcome(base):
+            failures.append(("compose_order", {"addresses": list(shuffled), "first": outcome(base),
+                                               "permuted": outcome(other)}))
+            break
+    several = any(len([h for h in hits if h[1] == p]) > 1 for hits in by_gene.values() for p in {h[1] for h in hits})
+    beaten_best = False
+    for gene, hits in by_gene.items():
+        for profile in {h[1] for h in hits}:
+            own = [h for h in hits if h[1] == profile]
+            best = max(own, key=lambda h: h[4])
+            if len(own) > 1 and best not in kept_by_gene.get(gene, []):
+                beaten_best = True
+    info["nontrivial"] = competing_somewhere and several
+    classes = info["classes"]
+    if competing_somewhere:
+        classes.append("competition")
+    if several:
+        classes.append("several_hits_of_a_profile")
+    if beaten_best:
+        classes.append("best_of_profile_beaten_second_hit_present")
+    if len(inputs) < count:
+        classes.append("hit_below_cutoff")
+    if sum(len(v) for v in kept_by_gene.values()) < len(inputs):
+        classes.append("some_dropped")
+    del lost_a_profile
+    return failures, info
+
+
+def check_compose(spec: dict) -> dict:
+    failures, info = _compose_failures(spec)
+    _raise_first("compose", spec, failures)
+    return info
+
+
 # =========================================================================== docking domains
 
 def _docking_failures(spec: dict) -> tuple:
@@ -984,6 +1150,7 @@ SUBCHECKS = {
     "hmmer": check_hmmer,
     "hmmer_enum": check_hmmer,
     "filter": check_filter,
+    "compose": check_compose,
     "docking": check_docking,
 }
 
@@ -1309,6 +1476,15 @@ def filter_specs(draw) -> dict:
 
 
 @st.composite
+def compose_specs(draw) -> dict:
+    """ the filter generator with cutoffs: some hits fall below their profile's cutoff """
+    spec = draw(filter_specs())
+    spec["cutoffs"] = {profile: draw(st.sampled_from([0, 5, 5, 10])) for profile in
+                       ["K1", "K2", "K3", "A1", "A2", "X1"]}
+    return spec
+
+
+@st.composite
 def docking_specs(draw) -> dict:
     proteins = []
     names = list(DOCKING) + ["PKS_KS", "AMP-binding", "PCP"]
@@ -1340,6 +1516,7 @@ def run(ctx) -> None:
     ctx.hyp("refine", refine_specs(), max_examples=ctx.pick(6000, 100000), shards=rand_shards)
     ctx.hyp("hmmer", hmmer_specs(), max_examples=ctx.pick(2400, 32000), shards=rand_shards)
     ctx.hyp("filter", filter_specs(), max_examples=ctx.pick(2400, 40000), shards=rand_shards)
+    ctx.hyp("compose", compose_specs(), max_examples=ctx.pick(1600, 24000), shards=rand_shards)
     ctx.hyp("docking", docking_specs(), max_examples=ctx.pick(800, 8000), shards=rand_shards)
     ctx.extra["bounds"] = {
         "refine_enum": f"all sets of <= {ctx.pick(2, 3)} distinct hits over grid {GRID}, profiles pA (10) and pB (20), "
